@@ -59,6 +59,68 @@ macro_rules! extern_wasm {
     };
 }
 
+// Verification hook (guard: `--cfg bytecodealliance_wit_bindgen_verif`). On
+// non-wasm targets the dummy shims above are replaced by real `extern "C"`
+// declarations (keeping each function's `#[link_name]`) so that a native mock
+// component-model host can provide the canonical built-ins. The definition
+// below shadows the one above for the rest of this module tree; the dummy
+// invocation keeps the shadowed definition "used".
+#[cfg(all(bytecodealliance_wit_bindgen_verif, not(target_family = "wasm")))]
+extern_wasm! {
+    unsafe extern "C" {
+        #[allow(dead_code, reason = "keeps the shadowed macro definition used")]
+        fn bytecodealliance_wit_bindgen_verif_unused();
+    }
+}
+#[cfg(all(bytecodealliance_wit_bindgen_verif, not(target_family = "wasm")))]
+macro_rules! extern_wasm {
+    (
+        $(#[$extern_attr:meta])*
+        unsafe extern "C" {
+            $(
+                $(#[$func_attr:meta])*
+                $vis:vis fn $func_name:ident ( $($args:tt)* ) $(-> $ret:ty)?;
+            )*
+        }
+    ) => {
+        unsafe extern "C" {
+            $(
+                $(#[$func_attr])*
+                $vis fn $func_name($($args)*) $(-> $ret)?;
+            )*
+        }
+    };
+}
+
+/// Verification hook: internal transitions that a host cannot observe are
+/// reported to a tracer installed by the harness. Expands to nothing without
+/// the guard.
+#[cfg(bytecodealliance_wit_bindgen_verif)]
+#[doc(hidden)]
+pub mod verif {
+    use core::sync::atomic::{AtomicUsize, Ordering};
+
+    /// `fn(event, a, b, c)`; 0 means no tracer installed.
+    pub static TRACER: AtomicUsize = AtomicUsize::new(0);
+
+    #[inline(never)]
+    pub fn emit(event: &'static str, a: u64, b: u64, c: u64) {
+        let f = TRACER.load(Ordering::Relaxed);
+        if f != 0 {
+            let f: fn(&'static str, u64, u64, u64) = unsafe { core::mem::transmute(f) };
+            f(event, a, b, c);
+        }
+    }
+}
+macro_rules! verif_trace {
+    ($event:expr, $a:expr, $b:expr, $c:expr) => {
+        #[cfg(bytecodealliance_wit_bindgen_verif)]
+        {
+            crate::rt::async_support::verif::emit($event, $a as u64, $b as u64, $c as u64);
+        }
+    };
+}
+
 mod abi_buffer;
 mod cabi;
 mod error_context;
@@ -194,6 +256,7 @@ impl TaskState<'_> {
                 // code/bool indicating we're done. The caller will then
                 // appropriately deallocate this `TaskState` which will
                 // transitively run all destructors.
+                verif_trace!("rt.answer", 0, 1, Arc::as_ptr(&self.shared));
                 return CallbackCode::Exit;
             }
             _ => unreachable!(),
@@ -205,6 +268,7 @@ impl TaskState<'_> {
             me.shared
                 .sleep_state
                 .store(SLEEP_STATE_WOKEN, Ordering::Relaxed);
+            verif_trace!("rt.sleep", SLEEP_STATE_WOKEN, Arc::as_ptr(&me.shared), 0);
 
             // With all of our context now configured, deliver the event
             // notification this callback corresponds to.
@@ -232,6 +296,7 @@ impl TaskState<'_> {
                 me.shared
                     .sleep_state
                     .store(SLEEP_STATE_POLLING, Ordering::Relaxed);
+                verif_trace!("rt.sleep", SLEEP_STATE_POLLING, Arc::as_ptr(&me.shared), 0);
 
                 // Poll our future, seeing if it was able to make progress.
                 let poll = me.tasks.poll_next(&mut context);
@@ -246,8 +311,10 @@ impl TaskState<'_> {
                         if me.remaining_work() {
                             let set = me.shared.waitable_set.try_lock().unwrap();
                             let waitable = set.as_ref().unwrap().as_raw();
+                            verif_trace!("rt.answer", 2, waitable, Arc::as_ptr(&me.shared));
                             break CallbackCode::Wait(waitable);
                         } else {
+                            verif_trace!("rt.answer", 0, 0, Arc::as_ptr(&me.shared));
                             break CallbackCode::Exit;
                         }
                     }
@@ -269,6 +336,7 @@ impl TaskState<'_> {
                                     continue;
                                 }
                             }
+                            verif_trace!("rt.answer", 1, 0, Arc::as_ptr(&me.shared));
                             break CallbackCode::Yield;
                         }
 
@@ -278,9 +346,11 @@ impl TaskState<'_> {
                         me.shared
                             .sleep_state
                             .store(SLEEP_STATE_SLEEPING, Ordering::Relaxed);
+                        verif_trace!("rt.sleep", SLEEP_STATE_SLEEPING, Arc::as_ptr(&me.shared), 0);
                         me.read_inter_task_stream();
                         let set = me.shared.waitable_set.try_lock().unwrap();
                         let waitable = set.as_ref().unwrap().as_raw();
+                        verif_trace!("rt.answer", 2, waitable, Arc::as_ptr(&me.shared));
                         break CallbackCode::Wait(waitable);
                     }
                 }
@@ -294,6 +364,7 @@ impl TaskState<'_> {
     fn deliver_waitable_event(&mut self, waitable: u32, code: u32) {
         WaitableSet::remove_waitable_from_all_sets(waitable);
 
+        verif_trace!("rt.deliver", waitable, code, Arc::as_ptr(&self.shared));
         if self
             .inter_task_wakeup
             .consume_waitable_event(waitable, code)
@@ -349,6 +420,7 @@ impl TaskState<'_> {
 
 impl Drop for TaskState<'_> {
     fn drop(&mut self) {
+        verif_trace!("rt.taskdrop", Arc::as_ptr(&self.shared), 0, 0);
         // If there's an active read of the inter-task stream, go ahead and
         // cancel it, since we're about to drop the stream anyway.
         self.cancel_inter_task_stream_read();
@@ -387,6 +459,7 @@ impl SharedTaskState {
         callback: unsafe extern "C" fn(*mut c_void, u32),
         callback_ptr: *mut c_void,
     ) -> *mut c_void {
+        verif_trace!("rt.register", waitable, callback_ptr, self as *const Self);
         self.add_waitable(waitable);
         let mut waitables = self.waitables.try_lock().unwrap();
         let c = CabiWaitable {
@@ -401,6 +474,7 @@ impl SharedTaskState {
 
     /// Implementation of the CABI `waitable_unregister` function.
     fn waitable_unregister(&self, waitable: u32) -> *mut c_void {
+        verif_trace!("rt.unregister", waitable, 0, self as *const Self);
         WaitableSet::remove_waitable_from_all_sets(waitable);
         let mut waitables = self.waitables.try_lock().unwrap();
         match waitables.remove(&waitable) {
@@ -456,6 +530,7 @@ impl Wake for SharedTaskState {
     }
 
     fn wake_by_ref(self: &Arc<Self>) {
+        verif_trace!("rt.wake", self.sleep_state.load(Ordering::Relaxed), Arc::as_ptr(self), 0);
         match self.sleep_state.swap(SLEEP_STATE_WOKEN, Ordering::Relaxed) {
             // If this future was currently being polled, or if someone else
             // already woke it up, then there's nothing to do.
